@@ -13,7 +13,7 @@ CHECKS = {
                 text='The 22 repository-side node constructors that the grammar actions call (fields, member classification by kind in source order, parent links, constructor-name and operator validation) are proved against contracts for all arguments. Exact structural checks of the live grammar graph (results-name dataflow, flag/terminal table, end anchor). Bounded round trip: for seeded derivations of a reference grammar written from DOCS.md the abstracted real parse tree must equal the written tree. The pyparsing matcher and the class-body lambdas are outside the proof.',
                 note=BOUNDED_NOTE, technique='contract-based deductive verification (Python-ast -> SMT VCs, z3+cvc5) of the functions listed in the evidence; bounded stand-in (real output read back / reference oracle on a stated scope) for the rest; structural inspection of the grammar objects built by the real code'),
     'C02': dict(cat='other', design='7/C02',
-                text='instantiate_args_list / instantiate_return_type proved to keep argument names, default text, order and the pair/single shape, is_scoped_template proved to recognise a scoped use by its first :: component; instantiate_type proved (contracts/c02_quals.py) to return a new Type with the five qualifiers of its argument in every branch, lifted to every argument and both return-type members (under one argument per template parameter, partial correctness w.r.t. IndexError, frame of nested calls assumed: a frame proof was attempted and withdrawn, DESIGN 11.5). Bounded: every type of every instantiated member on the scope (random + sanitised + curated scenarios with look-alike identifiers, This::X, multi-instantiation templates, every shape of the structured scope) is compared, through the emitted bindings, with capture-free reference substitution.',
+                text='instantiate_args_list / instantiate_return_type proved to keep argument names, default text, order and the pair/single shape, is_scoped_template proved to recognise a scoped use by its first :: component; instantiate_type proved (contracts/c02_quals.py) to return a new Type with the five qualifiers of its argument in every branch, lifted to every argument and both return-type members, and to substitute plain names exactly (a parameter name -> the argument of the first parameter of that name, a non-parameter unchanged, This -> the class typename) (under one argument per template parameter, partial correctness w.r.t. IndexError, frame of nested calls assumed: a frame proof was attempted and withdrawn, DESIGN 11.5). Bounded: every type of every instantiated member on the scope (random + sanitised + curated scenarios with look-alike identifiers, This::X, multi-instantiation templates, every shape of the structured scope) is compared, through the emitted bindings, with capture-free reference substitution.',
                 note=BOUNDED_NOTE, technique='contract-based deductive verification (Python-ast -> SMT VCs, z3+cvc5) of the functions listed in the evidence; bounded stand-in (real output read back / reference oracle on a stated scope) for the rest'),
     'C03': dict(cat='other', design='7/C03', text='Leaf emitters (constructors, dunders, properties, operators, variables, enums, class-scoped enums, forward-declaration classes, module-variable / qualification helpers) proved equal to their denotations for all inputs; _wrap_method / wrap_methods / wrap_instantiated_class proved as conditional contracts (no method named print, serialization and documentation off) and monitored at run time otherwise; presence, names, submodule placement, top-namespace and ignore filters decided on a bounded scope by reading real output back and comparing with the bindings declared by the reference semantics.',
                 note=BOUNDED_NOTE, technique=PY_TECH),
